@@ -313,6 +313,7 @@ func jsonVocab(d *JN) *vocab {
 			}
 			ch := append(append([]NT(nil), chain...), nt)
 			v.paths = append(v.paths, ch)
+			v.facts = append(v.facts, jsonFacts(m))
 			if m.Kind == 's' {
 				s := m.Tok.S
 				if m.Tok.Kind == 6 {
@@ -328,4 +329,43 @@ func jsonVocab(d *JN) *vocab {
 	}
 	walk(d, nil, false)
 	return v
+}
+
+func (n *JN) innerText() string {
+	if n.Kind == 's' {
+		if n.Tok.Kind == 6 {
+			return strconv.FormatBool(n.Tok.B)
+		}
+		return n.Tok.S
+	}
+	var sb strings.Builder
+	for _, m := range n.Members {
+		sb.WriteString(m.innerText())
+	}
+	return sb.String()
+}
+
+// jsonFacts lists atomic predicates of the class that hold of value n.
+func jsonFacts(n *JN) []*PExp {
+	var fs []*PExp
+	if it := n.innerText(); okValue(it) {
+		fs = append(fs, &PExp{Op: "selfeq", V: it})
+	}
+	if n.Kind == 's' {
+		if it := n.innerText(); okValue(it) {
+			fs = append(fs, &PExp{Op: "texteq", V: it})
+		}
+		return fs
+	}
+	for _, m := range n.Members {
+		nt := NT{Any: true}
+		if n.Kind == 'o' && isXPathName(m.Key) {
+			nt = NT{Local: m.Key}
+		}
+		if it := m.innerText(); okValue(it) {
+			fs = append(fs, &PExp{Op: "childeq", NT: &nt, V: it})
+		}
+		fs = append(fs, &PExp{Op: "haschild", NT: &nt})
+	}
+	return fs
 }
